@@ -47,7 +47,7 @@ class C06Layout(Scenario):
         kind = rng.choice(KINDS)
         cfg = {"kind": kind, "steps": rng.between(2, self.max_steps), "universe": rng.choice((4, 10, 25, 60))}
         if kind.startswith("cms"):
-            cfg.update({"width": rng.choice((2, 3, 5, 8, 50, 200)), "depth": rng.between(1, 6)})
+            cfg.update({"width": rng.choice((2, 3, 5, 8, 50, 200)), "depth": rng.between(1, 6), "free_removes": rng.chance(1, 2)})
         elif kind in ("cuckoo", "ccuckoo"):
             cfg.update({"capacity": rng.choice((2, 3, 5, 8, 20)), "bucket_size": rng.between(1, 4),
                         "max_swaps": rng.choice((2, 5, 20, 100)), "finger_size": rng.choice((1, 2, 4)),
@@ -76,6 +76,9 @@ class C06Layout(Scenario):
             return {"op": "compare"}
         if kind in ("bloom", "ondisk"):
             return {"op": "add", "k": k}
+        if kind.startswith("cms") and cfg.get("free_removes") and r < 30:
+            # int32 cells are signed: removing more than was added is part of the format's state space
+            return {"op": "remove", "k": k, "n": rng.weighted([(5, 1), (2, 3), (1, 50)]), "free": True}
         if kind == "cbloom" or kind.startswith("cms"):
             live = sorted(x for x, v in self.out.items() if v > 0)
             if live and r < 35:
@@ -195,11 +198,13 @@ class C06Layout(Scenario):
                 ref.add(key, step["n"])
                 self.out[step["k"]] = self.out.get(step["k"], 0) + step["n"]
         elif op == "remove":
-            if self.out.get(step["k"], 0) < step["n"]:
+            if step.get("free") and kind.startswith("cms"):
+                ctx.probe("over_removal")
+            elif self.out.get(step["k"], 0) < step["n"]:
                 return "skip"
             o.remove(key, step["n"])
             ref.remove(key, step["n"])
-            self.out[step["k"]] -= step["n"]
+            self.out[step["k"]] = self.out.get(step["k"], 0) - step["n"]
         elif op == "push":
             o.push()
             ref.push()
@@ -281,6 +286,9 @@ class C06Layout(Scenario):
                     lib = o.check(key)
                 except ZeroDivisionError:
                     lib = "zerodiv"
+                if not isinstance(lib, (int, str)):  # bool is an int; a float estimate is not what the format's reader gives
+                    raise Violation("reader_disagrees", f"{kind}: key {key!r}: the library answers {lib!r} "
+                                                        f"({type(lib).__name__}), the C reader {a}", sig)
                 libs = str(int(lib)) if not isinstance(lib, str) else lib
                 if a != libs:
                     raise Violation("reader_disagrees", f"{kind}: key {key!r}: C reader says {a}, library says {libs} "
